@@ -125,6 +125,56 @@ pub fn genl(ctx: &mut Ctx) -> String {
     format!("genl {:x} {:x} {}", aw.0, ab.0, moves_text(&ms))
 }
 
+/// C02: every kind of query a caller can make of the long-lived generator — plain and annotated
+/// lists, for the side to move and (when the side to move is not in check, so that no "move"
+/// captures a king) for the other colour, whatever board.turn() says — each compared on the spot
+/// with the answer of a cache-cleared generator to the very same query.  Decided by the harness.
+pub fn genlx(ctx: &mut Ctx) -> String {
+    let t = ctx.board.turn();
+    let o = t.opposite();
+    ctx.fresh.clear_caches_for_verif();
+    let in_check = evaluate::player_is_in_check(&ctx.board, &mut ctx.fresh, t);
+    let mut plan: Vec<(bool, Color)> = vec![];
+    if !in_check {
+        plan.push((true, o));
+    }
+    plan.push((false, t));
+    plan.push((true, t));
+    if !in_check {
+        plan.push((false, o));
+    }
+    plan.push((false, t));
+    let mut bad = String::new();
+    let mut n = 0;
+    for (annotated, c) in plan {
+        let text = |ms: &[ChessMove], annotated: bool| -> String {
+            ms.iter().map(|m| if annotated { format!("{}:{}", mv_text(m), effect_char(m.effect())) } else { mv_text(m) }).collect::<Vec<_>>().join(" ")
+        };
+        let l: Vec<ChessMove> = if annotated {
+            ctx.long.generate_moves_and_lazily_update_chess_move_effects(&mut ctx.board, c).into_iter().collect()
+        } else {
+            ctx.long.generate_moves(&mut ctx.board, c).into_iter().collect()
+        };
+        ctx.fresh.clear_caches_for_verif();
+        let f: Vec<ChessMove> = if annotated {
+            ctx.fresh.generate_moves_and_lazily_update_chess_move_effects(&mut ctx.board, c).into_iter().collect()
+        } else {
+            ctx.fresh.generate_moves(&mut ctx.board, c).into_iter().collect()
+        };
+        n += 1;
+        let (lt, ft) = (text(&l, annotated), text(&f, annotated));
+        if lt != ft && bad.is_empty() {
+            bad = format!(
+                "\n! C02 the long-lived generator answers the {} query for {} with [{}], a new generator with [{}] in [{}]",
+                if annotated { "annotated" } else { "plain" },
+                if c == Color::White { "white" } else { "black" },
+                lt, ft, snap(&ctx.board)
+            );
+        }
+    }
+    format!("genlx {}{}", n, bad)
+}
+
 pub fn att(ctx: &mut Ctx) -> String {
     ctx.fresh.clear_caches_for_verif();
     let aw = ctx.fresh.get_attack_targets(&ctx.board, Color::White);
